@@ -66,17 +66,22 @@ Inductive fexpr :=
 | FOr (a b : fexpr)          (* filter::or_filter<A, B> *)
 | FNot (a : fexpr).          (* filter::not_filter<A> *)
 
-(* severity_filter<Record,k>::sev for every k; initial value severity_level::trace *)
-Definition thresholds := nat -> sev.
-Definition init_thresholds : thresholds := fun _ => Trace.
-(* severity_filter<Record,k>::set_severity(s) *)
-Definition set_threshold (th : thresholds) (k : nat) (s : sev) : thresholds :=
-  fun j => if j =? k then s else th j.
+(* severity_filter<Record,k>::sev is a static data member of a class template over (Record, k): one threshold per
+   record type AND index.  ktable: the thresholds of one record type, by index; thresholds: by record type.
+   Initial value severity_level::trace. *)
+Definition ktable := nat -> sev.
+Definition thresholds := nat -> ktable.
+Definition init_thresholds : thresholds := fun _ _ => Trace.
+(* severity_filter<Record rc, k>::set_severity(s) *)
+Definition set_threshold (th : thresholds) (rc k : nat) (s : sev) : thresholds :=
+  fun r => if r =? rc then (fun j => if j =? k then s else th r j) else th r.
+(* severity_filter<Record rc, k>::min_severity() *)
+Definition min_severity (th : thresholds) (rc k : nat) : sev := th rc k.
 
 (* Filter<Record>::filter(r).  `&&` and `||` short-circuit in C++; the operands have no effects,
    so andb/orb are the same.  not_filter<not_filter<F1>> is a partial specialisation deriving
    publicly from F1: its filter() IS F1::filter. *)
-Fixpoint filt (th : thresholds) (f : fexpr) (r : record) : bool :=
+Fixpoint filt (th : ktable) (f : fexpr) (r : record) : bool :=
   match f with
   | FNull => true
   | FThr k => sev_ge (r_sev r) (th k)
@@ -139,8 +144,10 @@ Inductive event :=
 | Sink (member : nat) (s : sev) (text : str)   (* member `member` of sink::sequence got sink(s, text) *)
 | Fault.                                   (* null pointer dereference (s->str() with s == nullptr) *)
 
-(* a logger type: logger<Record, Formatter, sink::sequence<S_0 … S_{m-1}>, Filter> *)
-Record logger := mkLogger { lg_filter : fexpr; lg_sinks : nat }.
+(* a logger type: logger<Record, Formatter, sink::sequence<S_0 … S_{m-1}>, Filter>.
+   lg_rec identifies the Record type (its severity filters are severity_filter<Record, k>), lg_tagged says whether that
+   record type has a tag_attribute *)
+Record logger := mkLogger { lg_rec : nat; lg_tagged : bool; lg_filter : fexpr; lg_sinks : nat }.
 
 (* per binary: NITRO_LOG_MIN_SEVERITY and the user's Formatter (a function of the record) *)
 Record config := mkConfig { c_min : sev; c_fmt : record -> str }.
@@ -160,8 +167,11 @@ Record sstream := mkSS { ss_r : option record; ss_s : option str }.
 
 (* smart_stream(string_ref tag) *)
 Definition ss_construct (th : thresholds) (lg : logger) (sv : sev) (tag : option str) : sstream :=
-  let r := set_severity (set_tag new_record tag) sv in
-  if filt th (lg_filter lg) r                       (* logger::will_log( *r ) *)
+  (* detail::set_tag: set_tag_attribute<Record, has_attribute<tag_attribute, Record>> — a record type without a tag
+     attribute ignores the tag *)
+  let r0 := if lg_tagged lg then set_tag new_record tag else new_record in
+  let r := set_severity r0 sv in
+  if filt (th (lg_rec lg)) (lg_filter lg) r         (* logger::will_log( *r ): the filters of THIS record type *)
   then mkSS (Some r) (Some [])                      (* s.reset(new std::stringstream()) *)
   else mkSS None None.                              (* r.reset() *)
 
@@ -257,7 +267,7 @@ Definition set_slot (sl : nat -> option slot) (v : nat) (x : option slot) : nat 
   fun j => if j =? v then x else sl j.
 
 Inductive op :=
-| OSet (k : nat) (s : sev)                                             (* severity_filter<Record,k>::set_severity(s) *)
+| OSet (rc k : nat) (s : sev)                                          (* severity_filter<Record rc, k>::set_severity(s) *)
 | OOne (lg : logger) (sv : sev) (tag : option str) (its : list item)   (* L::sv(tag) << its…; *)
 | OOpen (v : nat) (lg : logger) (sv : sev) (tag : option str)          (* auto v = L::sv(tag); *)
 | OPut (v : nat) (it : item)                                           (* v << it; *)
@@ -273,7 +283,7 @@ Definition close_slot (cfg : config) (w : world) (v : nat) : world * list event 
 
 Definition exec_op (cfg : config) (w : world) (o : op) : world * list event :=
   match o with
-  | OSet k s => (mkWorld (set_threshold (w_th w) k s) (w_slots w), [])
+  | OSet rc k s => (mkWorld (set_threshold (w_th w) rc k s) (w_slots w), [])
   | OOne lg sv tag its => (w, exec_one cfg (w_th w) lg sv tag its)
   | OOpen v lg sv tag =>
       (* harness convention: a slot that is still occupied is closed first *)
